@@ -67,6 +67,9 @@ def r1_exits(ctx, F):
                 cons = [st for st in wr.stmts if st.kind.startswith("agg closure ") and st.kind.endswith("@" + f.uid)]
                 good = bool(wis) and bool(cons) and all(
                     any(wr.dominates(w.bb, st.bb) and w.bb != st.bb for w in wis) for st in cons)
+                # or the closure itself stops the iterators right before emitting the return
+                own = calls_by_name(f, r"BcWriter::<'f>::write_iter_stop$")
+                good = good or any(f.dominates(w.bb, c.bb) and w.bb != c.bb for w in own)
             ctx.check(good, "C12.R1", "write_return:iter_stop-before:" + c.full.rsplit("::", 1)[-1],
                       "write_iter_stop dominates the emission of the return instruction",
                       "a return instruction is emitted without the preceding write_iter_stop: `return` inside a for "
